@@ -3,6 +3,7 @@
 //! threads, under a hand-written single-poll executor that counts polls.
 
 use crate::contain::*;
+use crate::interpose;
 use injectorpp::interface::injector::*;
 use serde::{Deserialize, Serialize};
 use serde_json::{json, Value};
@@ -319,7 +320,42 @@ pub fn execute(sc: &AsyncScenario, sh: &Shared) -> Value {
         for (oi, op) in lt.ops.iter().enumerate() {
             if op.op == "fake" {
                 sh.note(PH_INSTALL, li as u64, oi as u64, 0);
+                // another executor thread awaits the function at every OS-call boundary of the
+                // installation: once faked, it must never see the original again
+                let (func, new_site) = (op.func, op.site);
+                let old_site = model[func].last().copied();
+                let findings: std::rc::Rc<std::cell::RefCell<Vec<String>>> = Default::default();
+                let f2 = findings.clone();
+                let obs_n: std::rc::Rc<std::cell::Cell<u64>> = Default::default();
+                let obs_n2 = obs_n.clone();
+                interpose::set_observer(Some(Box::new(move |point| {
+                    let body_before = BODY[func].load(Ordering::SeqCst);
+                    let seq_before = SEQ[func].load(Ordering::SeqCst);
+                    let got = await_func(func, 11);
+                    let ran = BODY[func].load(Ordering::SeqCst) - body_before;
+                    obs_n2.set(obs_n2.get() + 1);
+                    let mut allowed: Vec<(String, usize)> = vec![(fake_value(func, new_site, seq_before), 0)];
+                    match old_site {
+                        Some(s0) => allowed.push((fake_value(func, s0, seq_before), 0)),
+                        None => allowed.push((original_value(func, 11), 1)),
+                    }
+                    let ok = allowed.iter().any(|(v, r)| got.as_deref() == Some(v.as_str()) && ran == *r);
+                    if !ok {
+                        f2.borrow_mut().push(format!("at the {point} boundary an await on another thread gave {:?} (original body ran {ran}x); allowed {:?}", got, allowed));
+                    }
+                })));
+                interpose::arm(true);
                 let r = catch_unwind(AssertUnwindSafe(|| install(&mut inj, op.func, op.site, op.unchecked)));
+                interpose::arm(false);
+                interpose::set_observer(None);
+                awaits += obs_n.get();
+                if obs_n.get() > 0 {
+                    *probes.entry("awaits_interleaved_with_installation".into()).or_insert(0) += obs_n.get();
+                }
+                if let Some(f) = findings.borrow().first() {
+                    let tag = if old_site.is_some() { "await-during-refake-saw-something-else-than-a-fake" } else { "await-during-first-fake-inconsistent" };
+                    v(tag, &["C14", "C02"], format!("lifetime {li} op {oi} (fake #{} site {}): {f}", op.func, op.site));
+                }
                 match r {
                     Ok(()) => {
                         fakes += 1;
